@@ -36,5 +36,6 @@ MCRoutes == { <<"hset", "", "sym">>, <<"infix", "", "sym">>, <<"strkey", "", "st
               <<"arrow", "fb", "sym">>, <<"pfhset", "fp", "sym">> }
 MCRoutesQuick == { <<"hset", "", "sym">>, <<"strkey", "", "str">>,
                    <<"arrow", "fb", "sym">>, <<"pfhset", "fp", "sym">> }
-AllDevs == {"decode-error-swallowed", "nonsymbol-key-unchecked", "nil-elem-slice-panics"}
+AllDevs == {"decode-error-swallowed", "nonsymbol-key-unchecked", "nil-elem-slice-panics",
+            "slice-element-unchecked"}
 =============================================================================
